@@ -2,9 +2,9 @@ import vlib
 
 PROP = dict(
     id="C12",
-    corr=["Model/FsmCorr.vo", "Model/C12Corr.vo"],
+    corr=["Model/FsmCorr.vo", "Model/C12Corr.vo", "Model/C27Corr.vo"],
     design_ref="DESIGN.md §6 C12",
-    technique="Coq: arithmetic of the amount getters with explicit int64/uint64 wrap, CheckPremiumAmount as guard of the wrapped actions, claim-invoice equality from C01's invoice invariant; pure-function boundary grids + step-level correspondence against the real SwapService; monitor with integer (unwrapped) arithmetic",
+    technique="Coq: arithmetic of the amount getters with explicit int64/uint64 wrap, CheckPremiumAmount as guard of the wrapped actions, claim-invoice equality from C01's invoice invariant; pure-function boundary grids + step-level correspondence against the real SwapService; monitor with integer (unwrapped) arithmetic; plus the op-sequence family of C27 on the real premium.Setting (the rate a responder charges is the one configured at that moment), judged with C27's monitor",
     level_text="Machine-checked: inside the range CheckPremiumAmount accepts (premium <= limit, 0 <= amount+premium <= MaxUint64/1000) GetClaimAmount / GetOpeningTXAmount / *1000 do not wrap (int64/uint64 arithmetic explicit); the CheckPremiumAmount wrapper lets its action run only when that check passed; for ALL histories (C01's quantifiers) the claim invoice a taker pays has msat = GetClaimAmount()*1000, which for a swap-in responder is amount*1000 and for a swap-out initiator whose record passed the check is (amount+premium)*1000 <= (amount+limit)*1000 as integers (PARTIAL: that the check state dominates the paying state is a premise, monitored on every observed scenario); the responder's agreement carries the configured premium. D13 (negative premium + *1000 wrap) was confirmed on the real code and FIXED (repo commit 0078b77).",
     level_note="Trusted: Coq kernel; hand-written Gallina model of swap/actions.go (CheckPremiumAmount incl. the new range check, PayFeeInvoiceAction with 3*estimate exact below 2^51) tied by the pure-function grid (c12fn) and step-level correspondence; fee bound (i), swap-in initiator amounts (iii) and the dominance of the premium check are checked by the monitor on observed scenarios (directed boundary scenarios), not proved over all histories.",
     assumptions=[
@@ -41,6 +41,24 @@ def run(ctx):
     ctx.rules.append("scenarios of one swap driven through the real SwapService (focus: initiator roles; directed: premiums 0 / -amount / -amount-1 / int64 max / the D13 wrap solution, fee invoices at 3x and 3x+1 of the estimate); non-trivial = more than one step")
     ctx.absorb(res, "fsm", signature=sig,
                describe=lambda c: "an amount paid / locked / requested differs from amount(+premium) or exceeds the agreed bounds (role %s, chain %s)" % (c.get("role"), c.get("chain")))
+    run_rates(ctx)
+
+
+def run_rates(ctx):
+    """responder side: 'charges exactly the premium of its configured rate for that peer' needs the real premium.Setting
+    to answer with the rate configured NOW; the op-sequence family of C27 (set / set-default / delete / get / compute /
+    reopen on the real bbolt settings) is run here too and judged with C27's monitor. Only the family 'seq' is judged
+    for C12 (rates within +-10^6 ppm, amounts that cannot wrap); 'alias' and 'compute' carry C27's known findings."""
+    d = ctx.harness("c27", outdir=ctx.work + "/rates", args=["-n", 120 if ctx.quick else 2000])
+    if d is None:
+        return
+    res = vlib.eval_cases(d)
+    keep = lambda i: res["cases"][i].get("family") == "seq"
+    res["monitor_violations"] = [i for i in res["monitor_violations"] if keep(i)]
+    res["mismatches"] = [i for i in res["mismatches"] if keep(i)]
+    ctx.rules.append("rates family (shared with C27, only the op-sequence family 'seq' is judged here): SetRate / SetDefaultRate / DeleteRate / GetRate / GetDefaultRate / Compute / reopen sequences on the real premium.Setting over bbolt; monitor: every read and every computed premium is that of the rate configured at that moment (peer rate, else stored default, else built-in default)")
+    ctx.absorb(res, "rates", signature=lambda c: "rates:responder-premium-not-of-the-configured-rate",
+               describe=lambda c: "the premium / rate the real premium.Setting answers for a peer is not that of the rate configured at that moment (op sequence family %s): a responder would charge a premium other than its configured rate" % c.get("family"))
 
 
 def search(ctx):
